@@ -34,3 +34,5 @@ open SamVerif.Doc SamVerif.CommentQueue SamVerif.Imports SamVerif.Attach SamVeri
 #print axioms docOf_ok
 #print axioms expression_layout_text
 #print axioms expression_layout_width_irrelevant
+#print axioms pushBack_conserves
+#print axioms list_production_conserves
